@@ -36,7 +36,7 @@ Inductive handle :=
     Names follow DESIGN.md §2.2. *)
 Inductive pc :=
 (* Node::get *)
-| GHead | GCool1 (n : N) | GCool2 (n : N) | GCool3 (n : N) | GClaim (n : N)
+| GHead | GCool1 (n : N) | GCool2 (n : N) | GCool3 (n : N) | GBack (n : N) | GClaim (n : N)
 | GPush0 | GPush (head : N)
 (* Node::start_cooldown *)
 | C1 (n : N) | C2 (n : N) | C3 (n : N)
